@@ -59,6 +59,22 @@ def _main_sequence(g):
     return int(m.group(1))
 
 
+def _greet_switch_exits(g):
+    """connect_mx(): number of net_conn_shutdown() calls inside the switch over the error of the first
+    greeting line (0: every failed greeting moves on to the next MX)."""
+    body = func_body(g.text('qremote/conn_mx.c') or '', 'connect_mx') or ''
+    m = re.search(r'int s = netget\(0\);\s*if \(s < 0\) \{\s*switch \(-s\) \{(.*?)\n\t\t\t\}\n\t\t\}', body, re.S)
+    if not m or 'case ECONNRESET:' not in m.group(1) or 'default:' not in m.group(1):
+        g.broken.append('qremote/conn_mx.c:connect_mx: switch over the error of the first greeting line not found')
+        return None
+    sw = re.sub(r'/\*.*?\*/', '', m.group(1), flags=re.S)
+    labels = re.findall(r'(?:case (\w+)|default):', sw)
+    if labels != ['ECONNRESET', 'ETIMEDOUT', 'EINVAL', '']:
+        g.broken.append('qremote/conn_mx.c:connect_mx: greeting error switch has labels %s (model knows ECONNRESET, ETIMEDOUT, EINVAL, default)' % labels)
+        return None
+    return len(re.findall(r'net_conn_shutdown\(', sw)) + len(re.findall(r'\bexit\(', sw))
+
+
 def gen_routes(g):
     f = 'qremote/smtproutes.c'
     tags = _tags(g)
@@ -83,6 +99,7 @@ def gen_routes(g):
         ('tryconnFreshMax', g.const('qremote/conn.c', 'tryconn', r'thisip->priority <= (\d+)\)', 'fresh entry bound'), 'tryconn: entries with priority <= N are still to be tried'),
         ('filterPort', _main_sequence(g), 'qremote.c:main: filter_my_ips() runs iff targetport == N (between getmxlist and sortmx; connect_mx last)'),
         ('esmtpStarttls', _enum(g, 'include/qremote/greeting.h', 'esmtp_starttls'), 'include/qremote/greeting.h'),
+        ('greetSwitchExits', _greet_switch_exits(g), 'connect_mx: exits inside the switch over the error of the first greeting line (0 = always next MX)'),
         ('greetingOk', g.const('qremote/conn_mx.c', 'connect_mx', r'\(s != (\d+)\) \|\| \(flagerr != 0\)', 'greeting code'), 'connect_mx: the only accepted greeting code'),
     ]
     return lean_module(items)
